@@ -146,7 +146,7 @@ Definition pick_up_trip (s : Sim) (vid rid : id) : res Sim :=
   | Some v, Some r =>
       do s1 <- modify_vehicle s (veh_receive_payment v (r_value r));
       remove_request env
-        (emit s1 (EvPickup rid vid (sim_time s1 - dt s1) (r_dep r) (r_value r))) rid
+        (emit s1 (EvPickup rid vid (sim_time s1) (r_dep r) (r_value r))) rid
   end.
 Definition drop_off_trip (s : Sim) (vid : id) (r : Request) : res Sim :=
   match find vid (vehicles s) with
@@ -194,7 +194,9 @@ Definition enter_charging_base (vid bid cid : id) (s : Sim) : res Sim :=
                   match e_mech env (v_mech v) with
                   | None => Err
                   | Some m =>
-                      if negb (grant_access_to_membership (b_mem b) (v_mem v)) then Err
+                      if negb (Pos.eqb (b_geoid b) (v_geoid v)) then Reject
+                      else if negb (grant_access_to_membership (b_mem b) (v_mem v)) then Err
+                      else if negb (grant_access_to_membership (s_mem st) (v_mem v)) then Err
                       else match base_checkout_stall b with
                            | None => Reject
                            | Some b' =>
@@ -444,7 +446,13 @@ Definition charge (s : Sim) (vid sid cid : id) : res Sim :=
 
 (* vehicle_state_ops.move (with _go_out_of_service_on_empty) *)
 Definition go_out_of_service_on_empty (s : Sim) (vid : id) : res Sim :=
-  apply_new_vehicle_state s vid OutOfService.
+  match find vid (vehicles s) with
+  | None => apply_new_vehicle_state s vid OutOfService
+  | Some v =>
+      (* release what the interrupted activity holds; an activity that refuses to exit is left as it was *)
+      let s1 := match vs_exit (vid, v_state v) (vid, OutOfService) s with Ok s1 => s1 | _ => s end in
+      apply_new_vehicle_state s1 vid OutOfService
+  end.
 
 Definition move (s : Sim) (vid : id) : res Sim :=
   match find vid (vehicles s) with
